@@ -31,6 +31,10 @@ from . import vtkenc as V
 from .lib import clist, cnat, cqfrac
 
 REPAIRED = {"F-C07a": False, "F-C07b": False}
+# experiments only (mutation / candidate-fix runs against a scratch copy): VERIF_REPAIRED=F-C06a,F-C06b switches entries on
+for _k in filter(None, os.environ.get("VERIF_REPAIRED", "").split(",")):
+    if _k in REPAIRED:
+        REPAIRED[_k] = True
 
 WHAT = {
     "F-C07a": "F-C07a .vts with cell data whose grid is not two-dimensional cannot be read (cell-index map keyed by QUAD)",
@@ -297,7 +301,7 @@ def content(res, extra_types=()):
     for i, p in enumerate(res["points"]):
         if p in P:
             dup = True
-        P[p] = tuple(res["pf"][n][1][i] for n in pnames)
+        P[p] = tuple(res["pf"][n][1][i] if i < len(res["pf"][n][1]) else None for n in pnames)
     cnames = sorted(res["cf"])
     C = Counter()
     bad_order = 0
@@ -307,7 +311,7 @@ def content(res, extra_types=()):
             for n in cnames:
                 e = res["cf"][n].get(t)
                 cv.append(e[1][k] if e is not None and k < len(e[1]) else None)
-            coords = [res["points"][p] for p in row]
+            coords = [res["points"][p] if 0 <= p < len(res["points"]) else ("corner index out of range", p) for p in row]
             if t in TYPE_CLASS and t not in extra_types:
                 ncorn, order = TYPE_CLASS[t]
                 if order == "vtk":          # back to pixel order (the map is an involution)
